@@ -236,15 +236,18 @@ def solve_triangular_stub(a, b, trans=0, lower=False, unit_diagonal=False, overw
         raise ValueError(f"shapes of a {a.shape} and b {b.shape} are incompatible")
     if b.ndim not in (1, 2):
         raise ModelGap("solve_triangular stub models vector and matrix right-hand sides only")
-    if unit_diagonal:
-        raise ModelGap("unit_diagonal not modelled")
     if b.ndim == 2:
-        cols = [solve_triangular_stub(a, b[:, k].copy(), trans=trans, lower=lower, check_finite=check_finite) for k in range(b.shape[1])]
+        cols = [solve_triangular_stub(a, b[:, k].copy(), trans=trans, lower=lower, unit_diagonal=unit_diagonal, check_finite=check_finite) for k in range(b.shape[1])]
         out = np.empty(b.shape, dtype=object)
         for k, col in enumerate(cols):
             out[:, k] = col
         res = out.view(SymArr)
     else:
+        if unit_diagonal:
+            # documented contract: the diagonal of a is assumed to be 1 and is not referenced
+            a = a.copy()
+            for i in range(n):
+                a[i, i] = 1
         res = _solve_tri_vec(a, b, trans, lower, n)
     if overwrite_b and isinstance(b_in, np.ndarray):
         c = sym.ctx()
